@@ -460,4 +460,106 @@ theorem good_rename {d : Disk} {m : Mem} (hg : Good d m) (hw : DiskWF d) (sc acc
               · exact hg.hLast sc' a ai0 hc
               · exact hg.hLast sc' a ai h
 
+/-! ### ConvertToWatchingOnly -/
+
+theorem good_convertWO {d : Disk} {m : Mem} (cfg : Cfg) (hg : Good d m) (hw : DiskWF d) :
+    Good (convertWO cfg d m).1 (convertWO cfg d m).2 ∧ DiskWF (convertWO cfg d m).1 := by
+  unfold convertWO
+  split
+  · exact ⟨hg, hw⟩
+  · dsimp only
+    have g1 : Good d (if m.locked = true then m else lockMem cfg m) := by
+      split
+      · exact hg
+      · exact good_lockMem cfg hg
+    generalize (if m.locked = true then m else lockMem cfg m) = m1 at g1 ⊢
+    -- the database
+    have hacc : ∀ sc a, aget (delPrivScope cfg (d.scopes sc)).accts a = (aget (d.scopes sc).accts a).map delPrivAcct := by
+      intro sc a; simp only [delPrivScope]; exact aget_map_snd _ _ _
+    have hrowview : ∀ r : AcctRow, (delPrivAcct r).name = r.name ∧ (delPrivAcct r).nextExt = r.nextExt ∧
+        (delPrivAcct r).nextInt = r.nextInt := by
+      intro r; unfold delPrivAcct; split <;> exact ⟨rfl, rfl, rfl⟩
+    have hans : ∀ sc a, acctAns { d with watchOnly := true, scopes := fun i => delPrivScope cfg (d.scopes i) } sc a =
+        match acctAns d sc a with
+        | .ok r => .ok (delPrivAcct r)
+        | .error e => .error e := by
+      intro sc a
+      unfold acctAns
+      simp only [hacc]
+      cases aget (d.scopes sc).accts a with
+      | none => rfl
+      | some r => simp only [Option.map]; split <;> rfl
+    have hadr : ∀ sc k, aget (delPrivScope cfg (d.scopes sc)).addrs k = (aget (d.scopes sc).addrs k).map (delPrivAddr cfg) := by
+      intro sc k; simp only [delPrivScope]; exact aget_map_snd _ _ _
+    have hchain : ∀ r : ARow, (delPrivAddr cfg r = .chain) ↔ r = .chain := by
+      intro r; cases r <;> simp [delPrivAddr]
+      split <;> simp
+    have haddrAns : ∀ sc k, addrAns { d with watchOnly := true, scopes := fun i => delPrivScope cfg (d.scopes i) } sc k =
+        addrAns d sc k := by
+      intro sc k
+      unfold addrAns
+      simp only [hadr]
+      cases hr : aget (d.scopes sc).addrs k with
+      | none => rfl
+      | some r =>
+        simp only [Option.map]
+        cases r with
+        | chain =>
+          cases k with
+          | chain a b i =>
+            simp only [delPrivAddr, hans]
+            cases acctAns d sc a <;> rfl
+          | imp _ => rfl
+          | scr _ _ => rfl
+        | imp _ => cases k <;> rfl
+        | script _ => cases k <;> rfl
+        | wscript t s' h' =>
+          cases k <;> (by_cases hb : ((!t || cfg.fo1) && s') = true <;> simp [delPrivAddr, hb])
+    have hshape : ∀ sc k r, aget (delPrivScope cfg (d.scopes sc)).addrs k = some r → (k.isChain = true ↔ r = .chain) := by
+      intro sc k r h
+      rw [hadr] at h
+      cases h0 : aget (d.scopes sc).addrs k with
+      | none => simp [h0] at h
+      | some r0 =>
+        simp only [h0, Option.map, Option.some.injEq] at h
+        rw [← h, hchain]; exact hw.shape sc k r0 h0
+    have hwf : DiskWF { d with watchOnly := true, scopes := fun i => delPrivScope cfg (d.scopes i) } := by
+      refine ⟨fun h => by simp at h, hshape, ?_⟩
+      intro sc a r h
+      have h' : aget (delPrivScope cfg (d.scopes sc)).accts a = some r := h
+      rw [hacc] at h'
+      cases h0 : aget (d.scopes sc).accts a with
+      | none => simp [h0] at h'
+      | some r0 => exact hw.accts sc a r0 h0
+    -- the memory
+    have hmI : ∀ sc a ai, aget ((m1.scopes sc).acctInfo.map (fun p => (p.1, { p.2 with hasEnc := false }))) a = some ai →
+        ∃ ai0, aget (m1.scopes sc).acctInfo a = some ai0 ∧ ai = { ai0 with hasEnc := false } := by
+      intro sc a ai h
+      have h' : (aget (m1.scopes sc).acctInfo a).map (fun i : AcctInfo => { i with hasEnc := false }) = some ai :=
+        (aget_map_snd (m1.scopes sc).acctInfo (fun i : AcctInfo => { i with hasEnc := false }) a).symm.trans h
+      cases h0 : aget (m1.scopes sc).acctInfo a with
+      | none => simp [h0] at h'
+      | some ai0 => simp only [h0, Option.map, Option.some.injEq] at h'; exact ⟨ai0, rfl, h'.symm⟩
+    refine ⟨⟨⟨?_, ?_, Or.inr (Or.inl rfl), g1.coh.synced⟩, ?_, ?_, rfl, hwf.dpriv, hshape⟩, hwf⟩
+    · intro sc a ai h
+      obtain ⟨ai0, h0, rfl⟩ := hmI sc a ai h
+      obtain ⟨row, hr, hok⟩ := g1.coh.acct sc a ai0 h0
+      refine ⟨delPrivAcct row, by rw [hans, hr], ?_⟩
+      obtain ⟨i1, i2, i3, i4, i5, i6, i7⟩ := hok
+      obtain ⟨v1, v2, v3⟩ := hrowview row
+      refine ⟨by rw [v1]; exact i1, by rw [v2]; exact i2, by rw [v3]; exact i3, ?_, ?_, ?_, ?_⟩
+      · rw [v2]; dsimp only; split <;> exact i4
+      · dsimp only; split <;> exact i5
+      · rw [v3]; dsimp only; split <;> exact i6
+      · dsimp only; split <;> exact i7
+    · intro sc k id h
+      obtain ⟨h1, h2, h3⟩ := g1.coh.addr sc k id h
+      refine ⟨by rw [haddrAns]; exact h1, ?_, ?_⟩
+      · dsimp only; split <;> exact h2
+      · dsimp only; split <;> exact h3
+    · intro sc k id h; exact g1.hAddrs sc k id h
+    · intro sc a ai h
+      obtain ⟨ai0, h0, rfl⟩ := hmI sc a ai h
+      exact g1.hLast sc a ai0 h0
+
 end AddrLock
